@@ -263,6 +263,10 @@ ARG_KINDS = {
     "f64s": ("[1.5, -0.5, 2.0, 10.0]", "f64", ["1.5", "-0.5", "2", "10"], "x.to_string()"),
     "chars": ("['a', 'b']", "char", ["a", "b"], "x.to_string()"),
     "dbg": ("[crate::Dbg(1), crate::Dbg(2)]", "&crate::Dbg", ["Dbg(1)", "Dbg(2)"], 'format!("{:?}", x)'),
+    "weird_strs": ('["", "a::b", "x y", "ñandú"]', "&str", ["", "a::b", "x y", "ñandú"], "x.to_string()"),
+    "dbg_tuple": ("[(1, 2), (3, 4)]", "(i32, i32)", ["(1, 2)", "(3, 4)"], 'format!("{:?}", x)'),
+    "bools": ("[true, false]", "bool", ["true", "false"], "x.to_string()"),
+    "u128s": ("[u128::MAX, 0, 18446744073709551616]", "u128", [str(2 ** 128 - 1), "0", str(2 ** 64)], "x.to_string()"),
     "one": ("[7]", "u8", ["7"], "x.to_string()"),
     "empty": ("[]", "u8", [], "x.to_string()"),
 }
@@ -459,6 +463,11 @@ def family_forms(m, tier):
         dict(raw_name="a_strs", args="strs", form="bencher"),
         dict(raw_name="a_static_strs", args="static_strs"),
         dict(raw_name="a_empty", args="empty"),
+        dict(raw_name="a_weird_strs", args="weird_strs"),
+        dict(raw_name="a_dbg_tuple", args="dbg_tuple", form="bencher"),
+        dict(raw_name="a_bools", args="bools"),
+        dict(raw_name="a_u128s", args="u128s"),
+        dict(raw_name="named_path_like", name="looks::like a path"),
         dict(raw_name="g_types", types=["TA", "TB"]),
         dict(raw_name="g_types_empty", types=[]),
         dict(raw_name="g_types_composite", types=["Vec<zoo::TA>", "TB", "Option<zoo::TB>", "&str", "(u8, zoo::TA)"]),
@@ -759,9 +768,9 @@ def cases_of(m):
         for extra, t, c in gens:
             if b["args"] is not None:
                 for ai, a in enumerate(b["args"]):
-                    cases.append({"path": "::".join(base + extra + [a]), "bench": b["id"], "type": t, "const": c, "arg": a, "arg_index": ai, "ignore": ign})
+                    cases.append({"path": "::".join(base + extra + [a]), "bench_path": "::".join(base + extra), "bench": b["id"], "type": t, "const": c, "arg": a, "arg_index": ai, "ignore": ign})
             else:
-                cases.append({"path": "::".join(base + extra), "bench": b["id"], "type": t, "const": c, "arg": None, "arg_index": None, "ignore": ign})
+                cases.append({"path": "::".join(base + extra), "bench_path": "::".join(base + extra), "bench": b["id"], "type": t, "const": c, "arg": None, "arg_index": None, "ignore": ign})
     return cases
 
 
